@@ -70,6 +70,7 @@ type obResult struct {
 	Status    string   `json:"status"` // discharged | failed | undecided | covered | vacuous
 	Solvers   []string `json:"solvers"`
 	Ms        int64    `json:"ms"`
+	MaxMs     int64    `json:"max_instance_ms"`
 	FailInst  int      `json:"-"`
 	Detail    string   `json:"detail,omitempty"`
 	Model     string   `json:"-"`
@@ -236,6 +237,9 @@ func cmdCheck(args []string) int {
 		}
 		r.Instances++
 		r.Ms += q.Result.Ms
+		if q.Result.Ms > r.MaxMs {
+			r.MaxMs = q.Result.Ms
+		}
 		if !contains(r.Solvers, q.Result.Solver) {
 			r.Solvers = append(r.Solvers, q.Result.Solver)
 		}
@@ -492,7 +496,7 @@ func cmdCheck(args []string) int {
 	if *debug {
 		for _, n := range order {
 			r := byName[n]
-			fmt.Printf("  %-12s %s (%d inst, %dms) %s\n", r.Status, n, r.Instances, r.Ms, r.Detail)
+			fmt.Printf("  %-12s %s (%d inst, %dms, max %dms) %s\n", r.Status, n, r.Instances, r.Ms, r.MaxMs, r.Detail)
 		}
 	}
 	for _, v := range violations {
